@@ -1,6 +1,6 @@
 (* C12 — merging copies of one tree returns the tree; TreeModifier: rewrite and repair. *)
 From Verif.Base Require Import Tactics.
-From Verif.C12 Require Import Model Proofs.
+From Verif.C12 Require Import Extracted Model Proofs.
 Local Open Scope N_scope.
 
 (* ------------------------------------------------------------------ merge of k copies *)
@@ -193,14 +193,15 @@ Proof. induction t as [|a t IH]; [reflexivity|]. unfold sort_tree in *. cbn [fol
 
 Lemma finish_changed_sorted rd old res st : finish rd old res = Changed st -> sorted_le st.
 Proof.
-  unfold finish. destruct (if rd then res else ([], true)) as [nt ch].
+  unfold finish. change modifier_sorts_changed_trees with true. cbv iota.
+  destruct (if rd then res else ([], true)) as [nt ch].
   destruct (ch && negb (tree_eqb (sort_tree nt) old))%bool; [|discriminate]. intro H. inv H. apply sort_tree_sorted_le.
 Qed.
 
 Lemma finish_value rd old nt ch :
   result_tree old (finish rd old (nt, ch)) = if rd then (if ch then sort_tree nt else old) else [].
 Proof.
-  unfold finish. destruct rd.
+  unfold finish. change modifier_sorts_changed_trees with true. cbv iota. destruct rd.
   - destruct ch; cbn [andb]; [|reflexivity].
     destruct (tree_eqb (sort_tree nt) old) eqn:E; cbn [negb result_tree]; [symmetry; apply tree_eqb_sound; exact E | reflexivity].
   - cbn [andb]. change (sort_tree []) with ([] : tree).
@@ -210,7 +211,7 @@ Qed.
 Lemma finish_not_removed rd old res : finish rd old res <> Removed.
 Proof.
   unfold finish. destruct (if rd then res else ([], true)) as [nt ch].
-  destruct (ch && negb (tree_eqb (sort_tree nt) old))%bool; discriminate.
+  destruct (ch && negb (tree_eqb _ old))%bool; discriminate.
 Qed.
 
 Lemma finish_flag rd old nt ch : rd = true -> ch = false -> finish rd old (nt, ch) = Unchanged.
@@ -392,7 +393,8 @@ Section RewriteProofs.
     assert (result_tree t (mt path t) = prune path t) as H.
     { apply rw_tree_from_fold; [exact Hs|]. apply fold_nodes_spec.
       intros x Hx. eapply rw_node_value; [apply Nat.le_refl | apply Hwf; exact Hx]. }
-    unfold rewrite_tree. destruct Hroot as [-> | Hroot]; [exact H|]. destruct path; [exact H|]. rewrite Hroot. exact H.
+    unfold rewrite_tree. change rewrite_root_is_matched with false. cbn [andb].
+    destruct Hroot as [-> | Hroot]; [exact H|]. destruct path; [exact H|]. rewrite Hroot. exact H.
   Qed.
 
   (* path view of `prune`: the kept (path, node) pairs — a node is listed iff neither it nor an ancestor
